@@ -847,26 +847,42 @@ def _hb_diff(ctx, env, F1, label, rb=False, new=None):
     # With recalcBBoxes=True the header bbox is a recomputed (masked, C04's) field; for a glyph whose
     # header xMin really changed (struct-level read) the two outlines may differ by exactly one
     # uniform horizontal translation and by nothing else.
-    hdr = None
+    hdr = comps = None
     if rb and new is not None and "glyf" in env["orig"] and "glyf" in new:
         import struct
         from vmon.gen import c01_glyf as GL
 
         try:
-            hdr = [[struct.unpack(">h", g[2:4])[0] if len(g) >= 10 else None for g in GL.split(t)[0]]
-                   for t in (env["orig"], new)]
+            recs = [GL.split(t)[0] for t in (env["orig"], new)]
+            hdr = [[struct.unpack(">h", g[2:4])[0] if len(g) >= 10 else None for g in r] for r in recs]
+            comps = [[c[1] for c in (GL.components(g) or [])] for g in recs[0]]
         except Exception:
-            hdr = None
+            hdr = comps = None
 
     def _only_header_shift(gid, pa, pb):
-        if hdr is None or gid >= len(hdr[0]) or gid >= len(hdr[1]) or hdr[0][gid] == hdr[1][gid]:
+        """pb == pa moved horizontally by (old - new header xMin) of the glyph itself or of a glyph in
+        its component closure (USE_MY_METRICS hands the phantom points down); float32 slack 2**-7."""
+        if hdr is None or gid >= len(hdr[0]) or gid >= len(hdr[1]) or len(pa) != len(pb) or not pa or not pa[0][1]:
             return False
-        if len(pa) != len(pb) or not pa or not pa[0][1]:
-            return False
+        closure, todo = set(), [gid]
+        while todo:
+            g = todo.pop()
+            if g in closure or g >= len(comps):
+                continue
+            closure.add(g)
+            todo.extend(comps[g])
+        allowed = {hdr[0][g] - hdr[1][g] for g in closure
+                   if g < len(hdr[1]) and hdr[0][g] is not None and hdr[1][g] is not None and hdr[0][g] != hdr[1][g]}
         dx = pb[0][1][0][0] - pa[0][1][0][0]
-        if dx != hdr[0][gid] - hdr[1][gid]:
+        if not any(abs(dx - d) <= 2 ** -7 for d in allowed):
             return False
-        return [(op, tuple((p[0] + dx, p[1]) for p in pts)) for op, pts in pa] == pb
+        for (oa, qa), (ob, qb) in zip(pa, pb):
+            if oa != ob or len(qa) != len(qb):
+                return False
+            for u, v in zip(qa, qb):
+                if u[1] != v[1] or abs(v[0] - u[0] - dx) > 2 ** -7:
+                    return False
+        return True
 
     def snap(data, idx, side="a"):
         face = hb.Face(hb.Blob(data), idx)
@@ -900,7 +916,7 @@ def _hb_diff(ctx, env, F1, label, rb=False, new=None):
         return False
     ctx.judged()
     ctx.note("hb-differential")
-    what = None
+    what, where = None, None
     if a["n"] != b["n"]:
         what = "glyph count"
     elif a["cmap"] != b["cmap"]:
@@ -915,6 +931,7 @@ def _hb_diff(ctx, env, F1, label, rb=False, new=None):
                     continue
                 if x != y:
                     what = "outline" if x[0] != y[0] else "advance"
+                    where = {"glyph": gid, "location": li, "original": repr(x)[:300], "recompiled": repr(y)[:300]}
                     break
             if what:
                 break
@@ -923,6 +940,6 @@ def _hb_diff(ctx, env, F1, label, rb=False, new=None):
         return False
     if what:
         ctx.violation({"kind": "hb-differential", "what": what},
-                      "%s: HarfBuzz sees a different %s after load+save" % (label, what), None)
+                      "%s: HarfBuzz sees a different %s after load+save" % (label, what), where)
         return True
     return False
